@@ -8,6 +8,7 @@ package main
 
 import (
 	"context"
+	"errors"
 	"fmt"
 	"strings"
 	"time"
@@ -39,6 +40,8 @@ type st struct {
 	snap       bool
 	concurrent bool
 	secondDown bool
+	outage     bool
+	failDials  int
 }
 
 func body(faultSet []string) func(x *harness.X) {
@@ -48,6 +51,7 @@ func body(faultSet []string) func(x *harness.X) {
 		x.Vars["st"] = s
 		s.fault = faultSet[rt.Choose(len(faultSet))]
 		s.concurrent = rt.Choose(2) == 1
+		s.outage = rt.Choose(2) == 1 // the server is unreachable for a while after the fault
 		// server
 		pl := lib.NewPipeListener(nil, 64<<10, 4)
 		var chans []*lime.ServerChannel
@@ -81,6 +85,11 @@ func body(faultSet []string) func(x *harness.X) {
 		ccfg.ChannelBufferSize = 1
 		ccfg.CompSelector, ccfg.EncryptSelector, ccfg.Authenticator = lime.NoneCompressionSelector, lime.NoneEncryptionSelector, lime.GuestAuthenticator
 		ccfg.NewTransport = func(ctx context.Context) (lime.Transport, error) {
+			if s.failDials > 0 {
+				s.failDials--
+				x.Obs("client dial refused")
+				return nil, errors.New("connection refused")
+			}
 			n := s.dials
 			s.dials++
 			conn := pl.Dial()
@@ -136,6 +145,9 @@ func body(faultSet []string) func(x *harness.X) {
 				_, _ = sconn.Write([]byte(`{"id":"big","type":"text/plain","content":"` + strings.Repeat("A", 700) + `"}` + "\n"))
 			}
 		}
+		if s.outage {
+			s.failDials = 3
+		}
 		if s.concurrent {
 			done := make(chan struct{})
 			go func() { inject(); close(done) }()
@@ -143,6 +155,16 @@ func body(faultSet []string) func(x *harness.X) {
 			<-done
 		} else {
 			inject()
+		}
+		if s.outage {
+			// an application call whose own deadline runs out while the client is backing off
+			octx, oc := context.WithTimeout(context.Background(), 300*time.Millisecond)
+			r := &sendRec{id: "mo", dialsAt: s.dials}
+			s.sends = append(s.sends, r)
+			r.err = client.SendMessage(octx, lib.Msg("mo", "x"))
+			r.returned = true
+			oc()
+			x.Obs("app send mo (300ms deadline, during the outage) err=%v", r.err != nil)
 		}
 		// give the client time to notice (poll interval) and recover
 		for i := 0; i < 3; i++ {
@@ -189,6 +211,9 @@ func final(x *harness.X, res *rt.Result) {
 		tag += "/mid-send"
 	} else {
 		tag += "/idle"
+	}
+	if s.outage {
+		tag += "/outage"
 	}
 	hist := fmt.Sprintf("[%s; %s]", tag, strings.Join(x.Log(), " | "))
 	if res.Crash != "" {
@@ -257,7 +282,7 @@ func main() {
 	harness.Main(harness.Check{
 		Property: "C19",
 		Level:    "model_checking",
-		Rule:     "fault kind {server finish, server fail, abrupt close, half-close, undecodable bytes, non-envelope JSON, envelope above twice the read limit} x moment {idle, concurrent with an application send} as data choices, the injection placed by the bounded scheduler (delay bounding); then one more application send and one server-to-client message on the newest session; real Client and Server over the real TCP transport on per-dial virtual pipes; distinct outcome = distinct observation log",
+		Rule:     "fault kind {server finish, server fail, abrupt close, half-close, undecodable bytes, non-envelope JSON, envelope above twice the read limit} x moment {idle, concurrent with an application send} x {server reachable at once, three refused dials during which an application send with a 300ms deadline times out} as data choices, the injection placed by the bounded scheduler (delay bounding); then one more application send and one server-to-client message on the newest session; real Client and Server over the real TCP transport on per-dial virtual pipes; distinct outcome = distinct observation log",
 		Assume:   []string{"state pruning off (Client.channel is read outside its mutex)", "in-process and WebSocket clients are not explored here", "a spinning goroutine is recognised by more than 8000 visible operations being executed while the virtual clock stands still (a whole handshake takes about 1500)"},
 		Scenarios: []harness.Scenario{
 			mk("all-faults", faults, 1, 2),
